@@ -52,6 +52,15 @@ CONSTANTS N,          \* header ids are 0..N-1, 0 is genesis
           MaxFaults,  \* I/O errors per history
           MaxCrashes, \* crashes per history
           MaxLegacy,  \* 1: the Legacy action may happen (once per history)
+          Scale,      \* batch-size class: every header id >= 1 stands for a RUN of Scale
+                      \* consecutive real headers (1: a model entry is one header; 2251: an
+                      \* append of k ids is ONE WriteHeaders call with 2251*k headers, i.e.
+                      \* more than wire.MaxBlockHeadersPerMsg = 2000, the size class of header
+                      \* import batches).  A cell of `file` then is half a run (Scale*40 bytes
+                      \* of the block file: with an odd Scale a torn write ends inside an
+                      \* entry).  The driver writes / rolls back whole runs and projects the
+                      \* reads of EVERY real height and EVERY real hash of a run back to the
+                      \* id (G if the members of a run do not answer alike).
           FixSeekEnd, FixRollbackOrder, FixTornTail
 
 VARIABLES file,   \* [B |-> Seq(cell), F |-> Seq(cell)]
@@ -227,21 +236,29 @@ Stops(k) ==   \* where an append of k entries may stop
         \* at HEAD makes one update per call, so with j = 1 the call succeeds.
         THEN {<<"w", n>> : n \in 0..(2 * k - 1)} \cup {<<"idx", 0>>, <<"idx", 1>>} ELSE {})
   \cup (IF ncrashes < MaxCrashes /\ k > 0
-        THEN {<<"cw", n>> : n \in 1..(2 * k - 1)} \cup {<<"cfile", 0>>} ELSE {})
+        \* <<"cdb", j>>: the process dies right after the j-th database commit of the
+        \* call.  The code at HEAD makes one commit per append (entries and tip in
+        \* the same transaction), and it is the last durable step of the call.
+        THEN {<<"cw", n>> : n \in 1..(2 * k - 1)} \cup {<<"cfile", 0>>, <<"cdb", 1>>} ELSE {})
 
 Bump(st) ==
   /\ UNCHANGED leg
   /\ nops' = nops + 1
   /\ nfaults'  = IF st[1] \in {"w", "idx"} THEN nfaults + 1 ELSE nfaults
-  /\ ncrashes' = IF st[1] \in {"cw", "cfile", "c1"} THEN ncrashes + 1 ELSE ncrashes
+  /\ ncrashes' = IF st[1] \in {"cw", "cfile", "c1", "cdb"} THEN ncrashes + 1 ELSE ncrashes
 
 Finish(a) ==
   /\ act'  = a
   /\ abs'  = AbsNext(abs, a, Obs')
   /\ viol' = Viol(abs, Obs, a, abs', Obs')
 
-Act(op, batch, n, st, res) ==
-  [op |-> op, batch |-> batch, n |-> n, stop |-> st[1], sn |-> st[2], res |-> res]
+\* nc = number of database transactions the call COMMITTED (the driver's
+\* walletdb.DB proxy counts them; a call that makes more commits than the
+\* model says gets a crash point after each of them: adaptive pass of the
+\* family module).  sc = Scale (tells the driver the batch-size class).
+Act(op, batch, n, st, res, nc) ==
+  [op |-> op, batch |-> batch, n |-> n, stop |-> st[1], sn |-> st[2], res |-> res,
+   nc |-> nc, sc |-> Scale]
 
 \* blockHeaderStore.WriteHeaders: appendRaw, then addHeaders (one bbolt tx);
 \* if the index update fails: Sync + truncateHeaders(len(batch)).
@@ -262,19 +279,25 @@ AppendB(k, st) ==
             /\ file' = [file EXCEPT !.B = @ \o SubSeq(cells, 1,
                            IF st[1] = "cw" THEN st[2] ELSE Len(cells))]
             /\ UNCHANGED <<idx, tipk, pos>> /\ up' = 2
-            /\ Finish(Act("AppendB", batch, 0, st, "crash"))
+            /\ Finish(Act("AppendB", batch, 0, st, "crash", 0))
+       [] st[1] = "cdb" ->
+            LET r == AppendRaw(file.B, pos.B, cells, -1)
+            IN  /\ file' = [file EXCEPT !.B = r.file]
+                /\ idx' = ixNew /\ tipk' = [tipk EXCEPT !.B = tipId]
+                /\ UNCHANGED pos /\ up' = 2
+                /\ Finish(Act("AppendB", batch, 0, st, "crash", 1))
        [] st[1] = "w" ->
             LET r == AppendRaw(file.B, pos.B, cells, st[2])
             IN  /\ file' = [file EXCEPT !.B = r.file]
                 /\ pos' = [pos EXCEPT !.B = r.pos]
                 /\ UNCHANGED <<idx, tipk, up>>
-                /\ Finish(Act("AppendB", batch, 0, st, "err"))
+                /\ Finish(Act("AppendB", batch, 0, st, "err", 0))
        [] st[1] = "idx" /\ st[2] = 0 ->
             LET r == AppendRaw(file.B, pos.B, cells, -1)
             IN  /\ file' = [file EXCEPT !.B = TruncTo(r.file, Len(r.file) - 2 * k)]
                 /\ pos' = [pos EXCEPT !.B = r.pos]
                 /\ UNCHANGED <<idx, tipk, up>>
-                /\ Finish(Act("AppendB", batch, 0, st, "err"))
+                /\ Finish(Act("AppendB", batch, 0, st, "err", 0))
        [] OTHER ->
             LET r == AppendRaw(file.B, pos.B, cells, -1)
             IN  /\ file' = [file EXCEPT !.B = r.file]
@@ -282,7 +305,7 @@ AppendB(k, st) ==
                 /\ idx' = IF k = 0 THEN idx ELSE ixNew
                 /\ tipk' = IF k = 0 THEN tipk ELSE [tipk EXCEPT !.B = tipId]
                 /\ UNCHANGED up
-                /\ Finish(Act("AppendB", batch, 0, st, "ok"))
+                /\ Finish(Act("AppendB", batch, 0, st, "ok", IF k = 0 THEN 0 ELSE 1))
 
 \* filterHeaderStore.WriteHeaders for the next k blocks: appendRaw, then the
 \* filter tip key := block hash of the last one.
@@ -298,29 +321,35 @@ AppendF(k, st) ==
             /\ file' = [file EXCEPT !.F = @ \o SubSeq(cells, 1,
                            IF st[1] = "cw" THEN st[2] ELSE Len(cells))]
             /\ UNCHANGED <<idx, tipk, pos>> /\ up' = 2
-            /\ Finish(Act("AppendF", batch, 0, st, "crash"))
+            /\ Finish(Act("AppendF", batch, 0, st, "crash", 0))
+       [] st[1] = "cdb" ->
+            LET r == AppendRaw(file.F, pos.F, cells, -1)
+            IN  /\ file' = [file EXCEPT !.F = r.file]
+                /\ tipk' = [tipk EXCEPT !.F = batch[k]]
+                /\ UNCHANGED <<idx, pos>> /\ up' = 2
+                /\ Finish(Act("AppendF", batch, 0, st, "crash", 1))
        [] st[1] = "w" ->
             LET r == AppendRaw(file.F, pos.F, cells, st[2])
             IN  /\ file' = [file EXCEPT !.F = r.file]
                 /\ pos' = [pos EXCEPT !.F = r.pos]
                 /\ UNCHANGED <<idx, tipk, up>>
-                /\ Finish(Act("AppendF", batch, 0, st, "err"))
+                /\ Finish(Act("AppendF", batch, 0, st, "err", 0))
        [] st[1] = "idx" /\ st[2] = 0 ->
             LET r == AppendRaw(file.F, pos.F, cells, -1)
             IN  /\ file' = [file EXCEPT !.F = TruncTo(r.file, Len(r.file) - 2 * k)]
                 /\ pos' = [pos EXCEPT !.F = r.pos]
                 /\ UNCHANGED <<idx, tipk, up>>
-                /\ Finish(Act("AppendF", batch, 0, st, "err"))
+                /\ Finish(Act("AppendF", batch, 0, st, "err", 0))
        [] OTHER ->
             IF k = 0
             THEN /\ UNCHANGED cvars
-                 /\ Finish(Act("AppendF", batch, 0, st, "ok"))
+                 /\ Finish(Act("AppendF", batch, 0, st, "ok", 0))
             ELSE LET r == AppendRaw(file.F, pos.F, cells, -1)
                  IN  /\ file' = [file EXCEPT !.F = r.file]
                      /\ pos' = [pos EXCEPT !.F = r.pos]
                      /\ tipk' = [tipk EXCEPT !.F = batch[k]]
                      /\ UNCHANGED <<idx, up>>
-                     /\ Finish(Act("AppendF", batch, 0, st, "ok"))
+                     /\ Finish(Act("AppendF", batch, 0, st, "ok", 1))
 
 \* "idx": the database update of the rollback (truncateIndices / the filter
 \* tip update) reports an error.  With the index moved first nothing has
@@ -350,21 +379,21 @@ RollbackB(n, st) ==
   /\ UNCHANGED pos
   /\ IF n = 0
      THEN /\ st[1] = "none" /\ UNCHANGED <<file, idx, ridx, tipk, up>>
-          /\ Finish(Act("RollbackB", <<>>, n, st, "ok"))
+          /\ Finish(Act("RollbackB", <<>>, n, st, "ok", 0))
      ELSE IF bad
      THEN /\ st[1] = "none" /\ UNCHANGED <<file, idx, ridx, tipk, up>>
-          /\ Finish(Act("RollbackB", <<>>, n, st, "err"))
+          /\ Finish(Act("RollbackB", <<>>, n, st, "err", 0))
      ELSE IF st[1] = "c1"
      THEN /\ IF fileFirst THEN file' = fT /\ UNCHANGED <<idx, ridx, tipk>>
                           ELSE idx' = iT /\ ridx' = rT /\ tipk' = tT /\ UNCHANGED file
           /\ up' = 2
-          /\ Finish(Act("RollbackB", <<>>, n, st, "crash"))
+          /\ Finish(Act("RollbackB", <<>>, n, st, "crash", IF fileFirst THEN 0 ELSE 1))
      ELSE IF st[1] = "idx" /\ st[2] = 0
      THEN /\ IF fileFirst THEN file' = fT ELSE UNCHANGED file
           /\ UNCHANGED <<idx, ridx, tipk, up>>
-          /\ Finish(Act("RollbackB", <<>>, n, st, "err"))
+          /\ Finish(Act("RollbackB", <<>>, n, st, "err", 0))
      ELSE /\ file' = fT /\ idx' = iT /\ ridx' = rT /\ tipk' = tT /\ UNCHANGED up
-          /\ Finish(Act("RollbackB", <<>>, n, st, "ok"))
+          /\ Finish(Act("RollbackB", <<>>, n, st, "ok", 1))
 
 \* filterHeaderStore.RollbackLastBlock(newTip); newTip is what the block
 \* manager passes: the hash of the block below the filter tip.
@@ -377,24 +406,25 @@ RollbackF(st) ==
       fileFirst == ~FixRollbackOrder
   IN
   /\ up = 1 /\ nops < MaxOps
+  /\ Scale = 1               \* the API removes ONE real filter header per call: not a run-level step
   /\ Len(abs.F) >= 1          \* at length 1 this is a rollback past genesis: must fail, unchanged
   /\ st \in RbStops
   /\ Bump(st)
   /\ UNCHANGED <<pos, idx, ridx>>
   /\ IF bad
      THEN /\ st[1] = "none" /\ UNCHANGED <<file, tipk, up>>
-          /\ Finish(Act("RollbackF", <<>>, 1, st, "err"))
+          /\ Finish(Act("RollbackF", <<>>, 1, st, "err", 0))
      ELSE IF st[1] = "c1"
      THEN /\ IF fileFirst THEN file' = fT /\ UNCHANGED tipk
                           ELSE tipk' = tT /\ UNCHANGED file
           /\ up' = 2
-          /\ Finish(Act("RollbackF", <<>>, 1, st, "crash"))
+          /\ Finish(Act("RollbackF", <<>>, 1, st, "crash", IF fileFirst THEN 0 ELSE 1))
      ELSE IF st[1] = "idx" /\ st[2] = 0
      THEN /\ IF fileFirst THEN file' = fT ELSE UNCHANGED file
           /\ UNCHANGED <<tipk, up>>
-          /\ Finish(Act("RollbackF", <<>>, 1, st, "err"))
+          /\ Finish(Act("RollbackF", <<>>, 1, st, "err", 0))
      ELSE /\ file' = fT /\ tipk' = tT /\ UNCHANGED up
-          /\ Finish(Act("RollbackF", <<>>, 1, st, "ok"))
+          /\ Finish(Act("RollbackF", <<>>, 1, st, "ok", 1))
 
 \* Orderly close + reopen. as = 1: the filter store is opened with a header
 \* state assertion that MATCHES what is stored (neutrino.Config.AssertFilterHeader);
@@ -406,21 +436,21 @@ Reopen(as) ==
   /\ up = 1 /\ nops < MaxOps
   /\ nops' = nops + 1 /\ UNCHANGED <<nfaults, ncrashes>>
   /\ OpenBoth(as)
-  /\ Finish(Act("Reopen", <<>>, as, <<"none", 0>>, IF up' = 1 THEN "ok" ELSE "err"))
+  /\ Finish(Act("Reopen", <<>>, as, <<"none", 0>>, IF up' = 1 THEN "ok" ELSE "err", 0))
 
 \* The process dies while no store call is running.
 Crash ==
   /\ up = 1 /\ nops < MaxOps /\ ncrashes < MaxCrashes
   /\ nops' = nops + 1 /\ ncrashes' = ncrashes + 1 /\ UNCHANGED nfaults
   /\ up' = 2 /\ UNCHANGED <<file, pos, idx, ridx, leg, tipk>>
-  /\ Finish(Act("Crash", <<>>, 0, <<"none", 0>>, "crash"))
+  /\ Finish(Act("Crash", <<>>, 0, <<"none", 0>>, "crash", 0))
 
 \* Restart after a crash: all volatile state is gone, both stores are opened.
 Recover(as) ==
   /\ up = 2
   /\ UNCHANGED <<nops, nfaults, ncrashes>>
   /\ OpenBoth(as)
-  /\ Finish(Act("Recover", <<>>, as, <<"none", 0>>, IF up' = 1 THEN "ok" ELSE "err"))
+  /\ Finish(Act("Recover", <<>>, as, <<"none", 0>>, IF up' = 1 THEN "ok" ELSE "err", 0))
 
 \* Environment: the index as an older version (root-bucket layout) leaves it.
 Legacy ==
@@ -429,7 +459,7 @@ Legacy ==
   /\ ridx' = [i \in Ids |-> IF idx[i] # NF THEN idx[i] ELSE ridx[i]]
   /\ idx'  = [i \in Ids |-> NF]
   /\ UNCHANGED <<file, pos, tipk, up>>
-  /\ Finish(Act("Legacy", <<>>, 0, <<"none", 0>>, "ok"))
+  /\ Finish(Act("Legacy", <<>>, 0, <<"none", 0>>, "ok", 0))
 
 Init ==
   /\ file = [B |-> CellsOf(<<0>>), F |-> CellsOf(<<0>>)]
@@ -439,7 +469,7 @@ Init ==
   /\ tipk = [B |-> 0, F |-> 0]
   /\ up = 1 /\ nops = 0 /\ nfaults = 0 /\ ncrashes = 0
   /\ abs = AbsInit
-  /\ act = Act("Init", <<>>, 0, <<"none", 0>>, "ok")
+  /\ act = Act("Init", <<>>, 0, <<"none", 0>>, "ok", 0)
   /\ viol = {}
 
 Next ==
